@@ -23,7 +23,7 @@ inline uint64_t stamp() { return gSeq.fetch_add(1, std::memory_order_relaxed) + 
 
 struct FanTls { const void *h = nullptr; uint64_t sid = 0; uint64_t tok = 0; int depth = 0; };
 inline thread_local FanTls tFan; // the close fan-out this (I/O) thread is currently inside
-struct FlushTls { const void *h = nullptr; uint64_t startSeq = 0; };
+struct FlushTls { const void *h = nullptr; uint64_t startSeq = 0; int afterClose = 0; };
 inline thread_local FlushTls tFlush; // this (application) thread is inside setReadMode(): data callbacks are the Sync->Async flush
 
 enum RegCtx { RC_ACTOR = 0, RC_ANNOUNCE, RC_DATA, RC_GLOBALCLOSE, RC_OBSERVER, RC_OTHER_IO, RC_RACY, RC_CLEANUP };
@@ -409,7 +409,7 @@ struct Hist
       auto it = sess.find(sid);
       if (it != sess.end() && it->second.closes > 0) it->second.resyncAfterClose = true;
     }
-    tFlush.h = this; tFlush.startSeq = stamp();
+    tFlush.h = this; tFlush.startSeq = stamp(); tFlush.afterClose = 0;
     { std::lock_guard<std::mutex> g(mu); sess[sid].tr(m == ReadMode::Sync ? "mode=S" : m == ReadMode::Async ? "mode=A" : "mode=D", tFlush.startSeq); }
     bool ok = false;
     try { ok = T->setReadMode(sid, m); } catch (const std::exception &) { countL("readmode_set_threw"); }
@@ -442,6 +442,22 @@ struct Hist
       if (S.closes > 0 && !closedBefore) count("il_flush_data_cb_entered_before_close_cb");
       if (closedBefore && inFlush)
       {
+        // raw peers send position-encoded bytes (position mod 251): one forward-ordered run == one chunk moved out of the
+        // buffer (a forward step of up to 9 is allowed: bytes the peer sent while the session was Disabled are dropped by design)
+        bool contig = data.size() > 0;
+        for (size_t i = 0; contig && i + 1 < data.size(); i++) { unsigned d = (unsigned(data.data()[i + 1]) + 251u - unsigned(data.data()[i])) % 251u; contig = d >= 1 && d <= 9; }
+        tFlush.afterClose++;
+        const bool beganBefore = tFlush.startSeq < S.closeSeq;
+        if (beganBefore && tFlush.afterClose == 1 && contig)
+        {
+          // the single chunk a flusher had already moved out of the buffer (lock released) when the close began
+          viol(K("data-after-close:setReadMode-flush-overlapping-close:one-in-flight-chunk"),
+               "a setReadMode(Async) call that began before the close had already taken one chunk out of the sync buffer; its data callback was entered after the global close callback",
+               &S, "\"bytes\":" + std::to_string(data.size()));
+          count("il_flush_one_in_flight_chunk_after_close");
+        }
+        else
+        {
         // the user-data cleanup is the last step of the close fan-out: a call that started after it started after the close completed
         bool after = S.cleanupSeq && S.cleanupSeq < tFlush.startSeq;
         std::string key = !after ? "data-after-close:setReadMode-flush-overlapping-close"
@@ -450,7 +466,8 @@ struct Hist
              !after ? "a setReadMode(Async) flush that overlapped the close fan-out delivered bytes through the data callback after the global close callback"
                     : S.resyncAfterClose ? "after the close completed the application set Sync/Disabled on the closed id and then Async: the flush delivered the bytes left in the closed buffer through the data callback"
                                          : "setReadMode(Async) called after the session's close had completed ran the Sync->Async flush and delivered buffered bytes through the data callback",
-             &S, "\"bytes\":" + std::to_string(data.size()));
+             &S, "\"bytes\":" + std::to_string(data.size()) + ",\"callbacks_after_close_in_this_call\":" + std::to_string(tFlush.afterClose) + ",\"call_began_before_close\":" + (beganBefore ? "true" : "false") + ",\"contiguous\":" + (contig ? "true" : "false"));
+        }
       }
       else if (closedBefore) viol(K("data-after-close"), "data callback for an id after its close callback", &S, "\"bytes\":" + std::to_string(data.size()));
       else if (S.ann == A_NONE) viol(K("data-before-announce"), "data callback for an id before its accept/connect callback", &S, "\"bytes\":" + std::to_string(data.size()));
